@@ -123,6 +123,9 @@ def run(module, cfg, workers=8, simulate=None, depth=None, timeout=1800, coverag
                 m = re.match(r"Error: Invariant (\w+) is violated", line)
                 if m:
                     res.violated = m.group(1)
+                m = re.match(r"Error: Postcondition (\w+)", line)
+                if m:
+                    res.violated = "Postcondition:" + m.group(1)
                 m = re.match(r"Error: Action property (\w+) is violated", line)
                 if m:
                     res.violated = m.group(1)
